@@ -230,6 +230,8 @@ def oracle(sc, res):
             att[e["f"]] = att.get(e["f"], 0) + 1
         elif e["ev"] == "Done":
             fst[e["f"]] = "ok" if e["ok"] else "fail"
+            if not e["ok"] and att.get(e["f"], 0) != sc.retries + 1:
+                bad.append(f"future {e['f']} gave up after {att.get(e['f'], 0)} attempts, retry budget is {sc.retries + 1}")
         elif e["ev"] == "Yield":
             ybyinput[e["i"]] = ybyinput.get(e["i"], 0) + 1
     for i, c in ybyinput.items():
